@@ -21,7 +21,7 @@ pub fn spec() -> Spec {
         rule: "family 'small': every r x c integer matrix with r, c <= 3 and entries in [-2, 2] ([-1, 1] for 3 x 3 at the quick tier), in the backends i64, BigRational and PrimeResidueClass<P> for P in {2, 3, 5, 7, 61, 3037000493}, and through the const-generic Matrix (hook wrappers) for i64 and BigRational; for each matrix rank, determinant, null space, inverse and solve against every right-hand side in {-1,0,1}^r; family 'four': 4 x 4 (and 3 x 4, 4 x 3) matrices with entries in {-1,0,1} and <= 2 non-zeros per row; family 'big': all 2 x 2 / 3 x 3 matrices over {0, 1, -1, 10^9, -999999937} for BigRational and the p-adic solver; family 'walk': shapes up to 6 x 6 reached from diagonal seeds by unimodular operations; family 'residues': field axioms on all pairs/triples for 5 small primes, canonical representative for every integer in [-3P, 3P] and boundary integers of the large prime through From<i64> and From<i32>; family 'padic': modular_solver::solve against Cramer's rule. Oracle: exact arithmetic on BigInt fractions - rank = size of the largest non-zero minor, determinant by Laplace expansion, consistency by rank(A) = rank(A|b), returned solutions verified by multiplication. Non-trivial = rank >= 1 and not full rank or a non-unit determinant.",
         assumptions: &["num-bigint / num-rational arithmetic is trusted (third-party); the reference algorithms (minors, Laplace, Cramer) are different from the crate's elimination", "the i64 backend is only required to be sound for solve (Some(x) => A x = b) and exact for rank / determinant / null space while no intermediate overflows; entries are tiny there"],
         bounds: |t| json!({"small_entries": 2, "small_3x3_entries": t.pick(1, 2), "rhs_entries": [-1, 0, 1], "four_nonzeros_per_row": 2, "big_alphabet": [0, 1, -1, 1000000000i64, -999999937i64],
-            "walk_max_shape": 6, "walk_depth": t.pick(2, 3), "padic_3x3_entries": 1, "padic_3x3_rhs": if t.is_thorough() { 27 } else { 3 }, "padic_2x2_entries": t.pick(3, 4), "padic_multi_column_rhs": "every ordered choice of 2 or 3 of {zero, small, 10^5-sized, 10^9-sized} columns on every padic-family matrix (3x3: the first 6 at the quick tier)"}),
+            "walk_max_shape": 6, "walk_depth": t.pick(2, 3), "padic_3x3_entries": 1, "padic_3x3_rhs": if t.is_thorough() { 27 } else { 3 }, "padic_2x2_entries": t.pick(3, 4), "big_i64_family": "i64 backend on 1 x n and n x 1 (n <= 4 [5]) and 2 x 2 matrices over 9 values up to 10^9 in size; one entry of size 2^31.5 .. 2^61 among entries of size <= 2 on the shapes 1 x 2, 2 x 1, 1 x 3, 3 x 1, 2 x 2", "padic_multi_column_rhs": "every ordered choice of 2 or 3 of {zero, small, 10^5-sized, 10^9-sized} columns on every padic-family matrix (3x3: the first 6 at the quick tier)"}),
     }
 }
 
@@ -406,6 +406,112 @@ impl<const P: i64> Backend for BP<P> {
     fn entry_to_big(x: &Self::T) -> Option<BigInt> {
         let v: i64 = (*x).into();
         Some(BigInt::from(v))
+    }
+}
+
+/// i64 backend on matrices with large entries: every comparison in BigInt (the harness's own generic helpers
+/// multiply in the backend's type, which would overflow here)
+fn check_i64_big(ctx: &mut Ctx, family: &str, m: &Mat, ncols: usize, rhs: &[Vec<i64>], weight: u64) {
+    let nrows = m.len();
+    let case = json!({"family": family, "backend": "i64", "rows": m, "ncols": ncols});
+    ctx.announce(&case);
+    let big = to_big(m);
+    let rank = rank_ref(&big, ncols, None);
+    let a = vm_i64(m, ncols);
+    let to_b = |v: &VecMatrix<i64>| -> Vec<Vec<BigInt>> { (0..v.nr_rows()).map(|i| (0..v.nr_columns()).map(|j| BigInt::from(v[i][j])).collect()).collect() };
+    let mul = |x: &Vec<Vec<BigInt>>, y: &Vec<Vec<BigInt>>| -> Vec<Vec<BigInt>> {
+        let inner = y.len();
+        let cols = if inner > 0 { y[0].len() } else { 0 };
+        x.iter().map(|row| (0..cols).map(|j| (0..inner).fold(BigInt::zero(), |s, k| s + &row[k] * &y[k][j])).collect()).collect()
+    };
+    ctx.ops(1);
+    match ctx.guard(|| a.rank()) {
+        Ok(r) if r == rank => {}
+        Ok(r) => {
+            ctx.violation("rank", case.clone(), format!("rank = {}, expected {}", r, rank), weight);
+            return;
+        }
+        Err(msg) => {
+            ctx.violation("panic:rank", case.clone(), msg, weight);
+            return;
+        }
+    }
+    if nrows == ncols {
+        let d = det_big(&big);
+        ctx.ops(1);
+        match ctx.guard(|| a.determinant()) {
+            Ok(g) if BigInt::from(g) == d => {}
+            Ok(g) => {
+                ctx.violation("determinant", case.clone(), format!("determinant = {}, expected {}", g, d), weight);
+                return;
+            }
+            Err(msg) => {
+                ctx.violation("panic:determinant", case.clone(), msg, weight);
+                return;
+            }
+        }
+        ctx.ops(1);
+        match ctx.guard(|| a.inverse()) {
+            Ok(Some(inv)) => {
+                let p = mul(&big, &to_b(&inv));
+                let ok = (0..nrows).all(|i| (0..nrows).all(|j| p[i][j] == if i == j { BigInt::one() } else { BigInt::zero() }));
+                if !ok {
+                    ctx.violation("inverse", case.clone(), "A * inverse is not the identity".into(), weight);
+                    return;
+                }
+            }
+            Ok(None) => {}
+            Err(msg) => {
+                ctx.violation("panic:inverse", case.clone(), msg, weight);
+                return;
+            }
+        }
+    }
+    ctx.ops(1);
+    match ctx.guard(|| a.null_space_matrix()) {
+        Ok(ns) => {
+            let nb = to_b(&ns);
+            let cols = ns.nr_columns();
+            let wanted = ncols - rank;
+            let zero = if cols == 0 { true } else { mul(&big, &nb).iter().all(|r| r.iter().all(|x| x.is_zero())) };
+            // independence: rank of the transposed null-space matrix
+            let nt: Vec<Vec<BigInt>> = (0..cols).map(|j| (0..ns.nr_rows()).map(|i| nb[i][j].clone()).collect()).collect();
+            let indep = cols == 0 || rank_ref(&nt, ns.nr_rows(), None) == cols;
+            if (wanted == 0 && cols != 0 && !(cols == 1 && nb.iter().all(|r| r[0].is_zero()))) && !(zero && indep && cols == wanted) {
+                ctx.violation("null-space", case.clone(), format!("null space has {} columns, expected {}", cols, wanted), weight);
+                return;
+            }
+            if wanted > 0 && !(zero && indep && cols == wanted) {
+                ctx.violation("null-space", case.clone(), format!("null space: {} columns (expected {}), annihilated = {}, independent = {}", cols, wanted, zero, indep), weight);
+                return;
+            }
+        }
+        Err(msg) => {
+            ctx.violation("panic:null_space", case.clone(), msg, weight);
+            return;
+        }
+    }
+    for b in rhs {
+        if b.len() != nrows {
+            continue;
+        }
+        ctx.ops(1);
+        let bm: Mat = b.iter().map(|&x| vec![x]).collect();
+        let bv = vm_i64(&bm, 1);
+        match ctx.guard(|| a.solve(&bv)) {
+            Ok(Some(x)) => {
+                let p = mul(&big, &to_b(&x));
+                if !(0..nrows).all(|i| p[i][0] == BigInt::from(b[i])) {
+                    ctx.violation("solve-wrong", json!({"family": family, "backend": "i64", "rows": m, "ncols": ncols, "rhs": b}), "solve returned a vector that is not a solution".into(), weight);
+                    return;
+                }
+            }
+            Ok(None) => {}
+            Err(msg) => {
+                ctx.violation("panic:solve", json!({"family": family, "backend": "i64", "rows": m, "ncols": ncols, "rhs": b}), msg, weight);
+                return;
+            }
+        }
     }
 }
 
@@ -1268,6 +1374,52 @@ fn run(ctx: &mut Ctx) {
                 padic_case(ctx, m, &rhs);
             }
         });
+    }
+    // family big-i64: machine integers with entries up to 10^9 in size on the shapes whose exact results stay far
+    // inside i64 whatever the pivoting (one row, one column, 2 x 2): a pivot search or gcd step that squares or
+    // multiplies entries needlessly overflows here although every answer is representable
+    {
+        let vals: Vec<i64> = vec![0, 1, -1, 2, 46_341, -65_537, 1_000_000, 999_999_937, -1_000_000_000];
+        for n in 1..=tier.pick(4usize, 5usize) {
+            for_each_matrix(1, n, &vals, &mut |m| {
+                if ctx.take() {
+                    ctx.count(true);
+                    let col: Mat = m[0].iter().map(|&x| vec![x]).collect();
+                    check_i64_big(ctx, "big-i64", m, n, &[vec![1], vec![999_999_937]], 60);
+                    let rhs_col: Vec<Vec<i64>> = vec![vec![0; n], (0..n as i64).map(|k| 1 - k).collect()];
+                    check_i64_big(ctx, "big-i64", &col, 1, &rhs_col, 60);
+                }
+            });
+        }
+        for_each_matrix(2, 2, &vals, &mut |m| {
+            if ctx.take() {
+                ctx.count(true);
+                check_i64_big(ctx, "big-i64", m, 2, &[vec![1, 1], vec![0, -1_000_000_000]], 70);
+            }
+        });
+        // exactly one huge entry (beyond 2^31.5, up to 2^61) among entries of size <= 2: no product of two entries
+        // of the input exceeds i64, so nothing the routines need to compute does
+        let small: Vec<i64> = vec![0, 1, -1, 2];
+        let huge: Vec<i64> = vec![3_037_000_500, -5_000_000_000, 1 << 40, -(1 << 61)];
+        for (r, c) in [(1usize, 2usize), (2, 1), (1, 3), (3, 1), (2, 2)] {
+            for_each_matrix(r, c, &small, &mut |m| {
+                if !ctx.take() {
+                    return;
+                }
+                for pos in 0..r * c {
+                    for &h in &huge {
+                        let mut mm = m.clone();
+                        mm[pos / c][pos % c] = h;
+                        ctx.count(true);
+                        let rhs: Vec<Vec<i64>> = vec![vec![1; r], (0..r as i64).map(|k| k - 1).collect()];
+                        check_i64_big(ctx, "huge-i64", &mm, c, &rhs, 80);
+                        if ctx.nviolations() > 0 {
+                            return;
+                        }
+                    }
+                }
+            });
+        }
     }
     // family padic
     let e2 = tier.pick(3, 4);
